@@ -107,6 +107,13 @@ _Bool nondet_bool(void); unsigned long nondet_u64(void); unsigned short nondet_u
 #define NONDET__Bool nondet_bool()
 #define NONDET(T, name) T name = NONDET_##T
 
+/* record / array inputs of a harness: in witness mode every element is an explicit nondeterministic assignment (so that it shows
+ * in the trace); in a native replay the recorded values are assigned (W_INIT_<name>, generated from the counterexample) */
+#ifdef NATIVE_REPLAY_DECLS
+#define ND_FILL_U16(obj, arr, k) do { memset(&(obj), 0, sizeof(obj)); W_INIT_##obj; } while (0)
+#else
+#define ND_FILL_U16(obj, arr, k) do { for (size_t i_ = 0; i_ < (k); i_++) { uint16_t x_ = nondet_u16(); (arr)[i_] = x_; } } while (0)
+#endif
 #define ND_SV(v) sv_t v; (v).n = nondet_size(); MAKE_SV(v)
 #define ND_SV2(v) sv_t v; (v).n = nondet_size(); MAKE_SV2(v)
 
